@@ -237,3 +237,55 @@ pub const MIN_TREE_ALT: Node<'static, MinDev> = Node::root(&[
     scpi_system!(),
     Node::branch(b"TEST", &[Node::leaf(b"FAIL", &FailCommand), Node::leaf(b"U8", &U8Command)]),
 ]);
+
+/// A plain IEEE 488.2 instrument (no SCPI status subsystem, no error queue) that relies on the
+/// trait's provided `stb()`: the status byte is ESB (ESR & ESE), MAV from the interface and MSS.
+#[derive(Default)]
+pub struct PlainDev {
+    pub esr: u8,
+    pub ese: u8,
+    pub sre: u8,
+}
+
+impl Device for PlainDev {
+    fn handle_error(&mut self, err: Error) {
+        self.esr |= err.esr_mask();
+    }
+}
+
+impl IEEE4882 for PlainDev {
+    fn sre(&self) -> u8 {
+        self.sre
+    }
+    fn set_sre(&mut self, value: u8) {
+        self.sre = value
+    }
+    fn esr(&self) -> u8 {
+        self.esr
+    }
+    fn set_esr(&mut self, value: u8) {
+        self.esr = value
+    }
+    fn ese(&self) -> u8 {
+        self.ese
+    }
+    fn set_ese(&mut self, value: u8) {
+        self.ese = value
+    }
+    fn tst(&mut self) -> Result<()> {
+        Ok(())
+    }
+    fn rst(&mut self) -> Result<()> {
+        Ok(())
+    }
+    fn cls(&mut self) -> Result<()> {
+        self.esr = 0;
+        Ok(())
+    }
+    fn opc(&mut self) -> Result<()> {
+        self.esr |= 1;
+        Ok(())
+    }
+}
+
+pub const PLAIN_TREE: Node<'static, PlainDev> = Root![ieee488_cls!(), ieee488_ese!(), ieee488_esr!(), ieee488_opc!(), ieee488_rst!(), ieee488_sre!(), ieee488_stb!(), ieee488_tst!(), ieee488_wai!()];
